@@ -5,6 +5,7 @@ CONSTANTS
   C2Pos = {3}
   C2Neg = {7}
   KM = 8
+  KF = 7
   ScalPos = {0, 1, 2, 1000}
   ScalNeg = {1, 7}
 INVARIANTS EmitInv Laws
